@@ -171,7 +171,7 @@ def _census(ctx, u: Unit) -> None:
                         ctx.ok("R06.2", u, "bare re-raise inside handler", line=sub.lineno)
                         continue
                     cls = raised_class(ctx, u, sub)
-                    ok = (u.short, cls) in PROTOCOL_RAISES
+                    ok = (ctx.pkg.canonical(u), cls) in PROTOCOL_RAISES
                     ctx.check(ok, "R06.2", u, sub,
                               f"`raise {cls}` inside `{label}` is a documented protocol raise" if ok else
                               f"handler `{label}` replaces the intercepted exception by `{cls}`")
